@@ -28,4 +28,22 @@ def treeOkFields (n : Nat) : FldList → Bool
 end
 
 
+mutual
+/-- the outcome is a value of type `t` (`t` = the field / item type below its non-null wrapper); `atField`: a resolver
+    sits directly above (only there an error can have been raised) -/
+def typedInner (atField : Bool) (t : Ty) : Out → Bool
+  | .null => true
+  | .raised _ _ => atField
+  | .leaf _ => match t with | .named _ => true | _ => false
+  | .list items => match t with | .list it => typedList it items | _ => false
+  | .obj fields => match t with | .named _ => typedFields fields | _ => false
+def typedList (it : Ty) : OutList → Bool
+  | .nil => true
+  | .cons o rest => typedInner false (innerTy it) o && typedList it rest
+def typedFields : FldList → Bool
+  | .nil => true
+  | .cons _ ty _ o rest => typedInner true (innerTy ty) o && typedFields rest
+end
+
+
 end PyGql.Spec.TreeOk
